@@ -273,7 +273,9 @@ def rule_fee_tables(ctx, rep):
                       {"true": cls_(gt), "false": cls_(gf)}, {"true": want_t + " or unbounded" if bounded_true else want_t, "false": want_f if bounded_true else want_f + " or unbounded"},
                       why="a comparison with a value the tool cannot evaluate may bound the fee only on the side an upper bound would, and never by a known constant")
     # comparisons that do not involve the fee
-    for seq in (["txn Amount", "int 5", "<"], ["int 1", "int 2", "=="], ["txn Fee", "int 5", "+"], ["txn Fee", "!"], ["gtxn 1 Fee", "int 5", "<"]):
+    for seq in (["txn Amount", "int 5", "<"], ["int 1", "int 2", "=="], ["txn Fee", "int 5", "+"], ["txn Fee", "!"], ["gtxn 1 Fee", "int 5", "<"],
+                # operands (partly) from before the block, none of them the fee
+                ["<"], ["=="], ["int 5", "<="], ["txn Amount", ">"], ["int 1000", "=="]):
         v, _, _ = b.operand(seq)
         got = _call(ctx, me, "_get_asserted_single", "Fee", v)
         gt, gf = _fee_view(ctx, got[0]), _fee_view(ctx, got[1])
@@ -543,6 +545,13 @@ def rule_addr_tables(ctx, rep):
             ok = isinstance(got, tuple) and _den(got[0], ANY, NO) == "TOP" and _den(got[1], ANY, NO) == "TOP"
             rep.check(ok, rule, f"{key} unaffected by {seq[0].split()[0]} {seq[0].split()[-1] if seq[0].split()[-1] != key else 'same-field-other-txn'}",
                       where, got, "(ANY, ANY)", why="a comparison of another field / another transaction must not constrain this key")
+        # comparisons whose operands come (partly) from before the block and do not involve this key: no information
+        for seq in (["=="], ["!="], ["int 3", "=="], ["txn Amount", "=="], [f"txn {'Sender' if key != 'Sender' else 'RekeyTo'}", "!="], ["global ZeroAddress", "=="]):
+            v, _, _ = _builder(ctx).operand(seq)
+            got = _call(ctx, me, "_get_asserted_single", key, v)
+            ok = isinstance(got, tuple) and _den(got[0], ANY, NO) == "TOP" and _den(got[1], ANY, NO) == "TOP"
+            rep.check(ok, rule, f"{key} unaffected by a comparison with operands from before the block ({' ; '.join(seq)})", where, got, "(ANY, ANY)",
+                      why="a comparison that does not involve the field must not constrain it")
         # run-time comparands (documented heuristic): must not raise and must keep the other side ANY
         for oline, pos in itertools.product(("load 0", "txn Sender" if key != "Sender" else "txn Receiver", None), "LR"):
             if oline is None and pos == "L":
@@ -665,7 +674,7 @@ def rule_kind_tables(ctx, rep):
         judge("ApplicationID", opsym, cname, cval, got, f"{line} {opsym} int {cval}")
     # unrelated comparisons / unknown operands keep everything
     for seq in (["txn Amount", "int 1", "=="], ["txn TypeEnum", "load 0", "=="], ["txn TypeEnum", "=="], ["txn TypeEnum", "int pay", "<"],
-                ["gtxn 1 TypeEnum", "int pay", "=="], ["int 1", "int pay", "=="], ["txn Fee", "!"]):
+                ["gtxn 1 TypeEnum", "int pay", "=="], ["int 1", "int pay", "=="], ["txn Fee", "!"], ["!"], ["=="], ["int pay", "=="], ["int NoOp", "!="]):
         v, _, _ = b.operand(seq)
         got = _call(ctx, me, "_get_asserted_single", key, v)
         ok = isinstance(got, tuple) and isinstance(got[0], set) and set(KINDS) <= _labels(got[0]) and set(KINDS) <= _labels(got[1])
